@@ -83,7 +83,7 @@ func (v *Val) Key() string {
 		if v.Name != "" {
 			b.WriteString(":" + v.Name)
 		}
-	case "global", "call", "binop", "unop", "nonnil", "tassert":
+	case "global", "call", "binop", "unop", "nonnil", "tassert", "bytesconst":
 		b.WriteString(":" + v.Name)
 		if v.Op == "call" {
 			if i, ok := v.Aux.(int); ok && i > 0 {
@@ -386,6 +386,12 @@ func typeRangeOf(v *Val) (lo, hi constant.Value, ok bool) {
 	}
 	if v.Op == "buflen" || v.Op == "len" || v.Op == "cap" {
 		return constant.MakeInt64(0), constant.MakeInt64(1<<62), true // a length is never negative
+	}
+	// binary.Size of a value whose type parameter admits only fixed-size number types: 1, 2, 4 or 8
+	if v.Op == "call" && v.Name == "encoding/binary.Size" && len(v.Args) == 1 {
+		if a := stripIface(v.Args[0]); a != nil && a.Type != nil && numberTypeSet(a.Type) {
+			return constant.MakeInt64(1), constant.MakeInt64(8), true
+		}
 	}
 	if v.Op == "const" || v.Type == nil {
 		return nil, nil, false
